@@ -54,6 +54,10 @@ func c19(c *Ctx) {
 	c.Assume("listener back ends bind exactly the addresses passed to AddAddress (not analysed)")
 	c19ToAddr(c)
 	c19Run(c)
+	// "a connection to a listened port can reach only the services listed for that entry"
+	if find := c.P.Method("server", "Honeytrap", "findService"); c.Anchor(find != nil, "entry-services-only", "(*server.Honeytrap).findService") {
+		c08Candidates(c, "entry-services-only", find)
+	}
 }
 
 func c19ToAddr(c *Ctx) {
